@@ -1,6 +1,7 @@
 (* C16 - the ambient dependency setting is scoped, restored and isolated.  Pure data model (no reals, no axioms). *)
 From Coq Require Import List Arith Bool.
 From PUN Require Import Model.Ctx Proofs.Ctx.
+From PUN Require Import Base.Num Model.Pbox Model.PboxArith Gen.GenGlue Proofs.Glue.
 Import ListNotations.
 
 (* when a block ends - normally, by exception or by closing a generator, all of which reset the block's token -
@@ -28,6 +29,17 @@ Example C16_ex : fst (run1 cinit [Enter 0 DepP; Enter 1 DepO; Read; Exit 1; Read
   = [Some DepP; Some DepO; Some DepO; Some DepP; Some DepP; Some DepF; Some DepF].
 Proof. reflexivity. Qed.
 
+(* inside a block the bare operators + - * / between two p-boxes behave exactly like the explicit methods called with the setting in
+   force: the operator bodies TRANSLATED from pba/pbox_abc.py on every run (the ambient setting is their parameter) are the model's
+   add / sub / mul / div with that dependency, on any number structure (uses the tie of Proofs/Glue.v: functional extensionality) *)
+Theorem C16_operators_read_ambient (N : Num) (steps : nat) (p_lo p_hi : N) (p q : pbox N) (d : dep) :
+  gen_operator_add N steps p_lo p_hi mul_fuel p q d = padd N steps p_lo p_hi d p q /\
+  gen_operator_sub N steps p_lo p_hi mul_fuel p q d = psub N steps p_lo p_hi d p q /\
+  gen_operator_mul N steps p_lo p_hi mul_fuel p q d = pmul N steps p_lo p_hi d p q /\
+  gen_operator_div N steps p_lo p_hi mul_fuel p q d = pdiv N steps p_lo p_hi d p q.
+Proof. exact (operators_read_ambient N steps p_lo p_hi p q d). Qed.
+
 Print Assumptions C16_exit_restores.
 Print Assumptions C16_lifo_returns.
 Print Assumptions C16_noninterference.
+Print Assumptions C16_operators_read_ambient.
